@@ -552,7 +552,8 @@ fn main() {
             let _ = run_prog(&alpha[*i]);
         }
         let mut tot = SchedTotals { schedules: 0, configs: 0, max_points: 0, skipped: 0, late: 0, completed_min: usize::MAX, cap_hit: false, samples: vec![], lens: BTreeSet::new() };
-        let (bound2, bound3, cap) = ck.tier.pick((1usize, 1usize, 20_000u64), (2, 2, 400_000));
+        // per-configuration schedule caps keep the thorough tier within ~10 minutes
+        let (bound2, bound3, cap) = ck.tier.pick((1usize, 1usize, 20_000u64), (2, 1, 6_000));
         let sa: Vec<usize> = sa.iter().copied().take(ck.tier.pick(4, 7)).collect();
         let mut ok = true;
         'outer: for a in &sa {
@@ -601,8 +602,8 @@ fn main() {
         let t1 = Instant::now();
         let mut totc = SchedTotals { schedules: 0, configs: 0, max_points: 0, skipped: 0, late: 0, completed_min: 0, cap_hit: false, samples: vec![], lens: BTreeSet::new() };
         let cold_bound = 1;
-        let cold_cap = ck.tier.pick(400u64, 20_000);
-        let cold_alpha: Vec<usize> = sa.iter().copied().take(ck.tier.pick(2, sa.len())).collect();
+        let cold_cap = ck.tier.pick(400u64, 1_500);
+        let cold_alpha: Vec<usize> = sa.iter().copied().take(ck.tier.pick(2, 4)).collect();
         'o3: for a in &cold_alpha {
             for b in &cold_alpha {
                 if !explore_cold_config(&ck, &alpha, &refmap, &[vec![*a], vec![*b]], cold_bound, cold_cap, &mut totc) {
